@@ -163,7 +163,7 @@ def strategy(tier):
 
     @st.composite
     def case(draw):
-        spec = draw(model_spec(profile(max_comps=4, p_feedback=0.5)))
+        spec = draw(model_spec(profile(max_comps=4, p_feedback=0.5, out_scaling=draw(st.booleans()), auto_ivc=0.1, promotions=0.2)))
         outs = ['.'.join(c['path'] + [c['name'], v['name']]) for c in spec['comps'] if c['kind'] != 'ivc' for v in c['outputs']]
         ins = ['.'.join(c['path'] + [c['name'], v['name']]) for c in spec['comps'] if c['kind'] == 'ivc' for v in c['outputs']]
         of = draw(st.lists(st.sampled_from(outs), min_size=1, max_size=2, unique=True))
